@@ -151,6 +151,38 @@ pub fn is_padded_whole(out: &str, plain: &str, fills: &str) -> bool {
     false
 }
 
+/// A sink that accepts `0` bytes and then fails.
+pub struct FailingSink(pub usize);
+impl std::fmt::Write for FailingSink {
+    fn write_str(&mut self, x: &str) -> std::fmt::Result {
+        if x.len() > self.0 {
+            self.0 = 0;
+            Err(std::fmt::Error)
+        } else {
+            self.0 -= x.len();
+            Ok(())
+        }
+    }
+}
+
+/// Printing into a sink that fails part-way must leave nothing behind: the next print of the value (and
+/// of the value printed before it) is the plain text again.
+fn c16_after_failing_sink<T: std::fmt::Display>(v: &T, plain: &str, what: &str, st: &mut Stats) -> Check {
+    use std::fmt::Write as _;
+    for limit in 0..plain.len() {
+        st.eval();
+        let again = guard(|| {
+            let mut w = FailingSink(limit);
+            let _ = write!(w, "{}", v);
+            v.to_string()
+        })
+        .map_err(|p| Fail::new("C16:print_panic", format!("{} {:?} into a failing sink: {}", what, plain, p)))?;
+        ensure!(again == plain, "C16:print_after_failed_write", "{} {:?} prints as {:?} after a print of it into a sink that failed after {} bytes", what, plain, again, limit);
+    }
+    st.bump("values_printed_after_failing_sink");
+    Ok(())
+}
+
 /// C16 under formatter flags: the text printed with a width / alignment / sign / alternate flag is the
 /// plain text (possibly padded as a whole), or at least still parses back to the same value.
 fn c16_flagged<T: std::fmt::Display + PartialEq>(v: &T, plain: &str, what: &str, parse: impl Fn(&str) -> Option<T>, st: &mut Stats) -> Check {
@@ -194,6 +226,7 @@ pub fn c16_values(st: &mut Stats) -> Check {
         let dbg = format!("{:?}", a);
         ensure!(dbg == text, "C16:action_debug", "Debug form {:?} differs from Display {:?}", dbg, text);
         c16_flagged(a, &text, "action", |t| Action::from_str(t).ok(), st)?;
+        c16_after_failing_sink(a, &text, "action", st)?;
         st.nontrivial(fp_str(&text));
     }
     for i in 0..64u8 {
@@ -215,6 +248,7 @@ pub fn c16_values(st: &mut Stats) -> Check {
         let single = guard(|| map_bit_board_to_squares(1u64 << i)).map_err(|p| Fail::new("C16:map_panic", p))?;
         ensure!(single == vec![q], "C16:map_single_bit", "map_bit_board_to_squares(1<<{}) = {:?}", i, single);
         c16_flagged(&q, &want, "square", |t| Square::from_str(t).ok(), st)?;
+        c16_after_failing_sink(&q, &want, "square", st)?;
     }
     for (k, p) in ENGINE_PIECES.iter().enumerate() {
         st.eval();
@@ -224,6 +258,7 @@ pub fn c16_values(st: &mut Stats) -> Check {
         ensure!(Piece::from_str(&text).ok() == Some(*p), "C16:piece_round_trip", "{:?} does not parse back", text);
         ensure!(Piece::from_str(&text.to_uppercase()).ok() == Some(*p), "C16:piece_upper", "{:?} does not parse", text.to_uppercase());
         c16_flagged(p, &text, "piece", |t| Piece::from_str(t).ok(), st)?;
+        c16_after_failing_sink(p, &text, "piece", st)?;
     }
     for (k, d) in dirs.iter().enumerate() {
         st.eval();
@@ -231,6 +266,7 @@ pub fn c16_values(st: &mut Stats) -> Check {
         ensure!(text == dchars[k].to_string(), "C16:direction_print", "{:?} prints as {:?}", d, text);
         ensure!(Direction::from_str(&text).ok() == Some(*d), "C16:direction_round_trip", "{:?} does not parse back", text);
         c16_flagged(d, &text, "direction", |t| Direction::from_str(t).ok(), st)?;
+        c16_after_failing_sink(d, &text, "direction", st)?;
     }
     Ok(())
 }
